@@ -873,6 +873,44 @@ def retry_by_hand(chk, program, g, rule='RETRY'):
     chk.check(okd, rule, 'connect::wait', file=IO, line=fn.lineno, func=q,
               expected='an awaited sleep between attempts whose delay is positive, grows and is capped', found=[None if d is None else round(d, 3) for d in ds[:8]] + ['...', ds[-1]])
 
+def retry_hook_cannot_raise(chk, program, rule='RETRY'):
+    """an exception inside tenacity's before_sleep hook leaves AsyncRetrying: connect() ends after one attempt.  The hook (with the helpers it
+    calls, inlined) may only log plain names, attributes, calls of methods of the retry state and conditional expressions of those: no
+    subscripts, no arithmetic on what the exception carries, no raise."""
+    q = f"{BASE}.connect"
+    g = cfg_of(program, q)
+    hooks = set()
+    for n in ast.walk(g.fn):
+        if isinstance(n, ast.Call) and call_name(n).endswith('AsyncRetrying'):
+            for k in n.keywords:
+                if k.arg in ('before_sleep', 'before', 'after') and is_self_attr(k.value, None) if False else (k.arg in ('before_sleep', 'before', 'after') and isinstance(k.value, ast.Attribute) and isinstance(k.value.value, ast.Name) and k.value.value.id == 'self'):
+                    hooks.add(k.value.attr)
+    for h in sorted(hooks):
+        hq = program.resolve_method('ioclient', BASE, h)
+        if hq is None:
+            chk.unknown(rule, f"hook::{h}", 'hook method not found', IO, g.fn.lineno)
+            continue
+        fn = program.fn('ioclient', hq)
+        bad = []
+        for n in ast.walk(fn):
+            if isinstance(n, ast.Raise):
+                bad.append(f"raise at line {n.lineno}")
+            if isinstance(n, ast.Subscript) and isinstance(n.ctx, ast.Load) and not isinstance(n.value, (ast.Tuple, ast.List, ast.Constant)):
+                bad.append(f"{ast.unparse(n)[:50]} at line {n.lineno} (KeyError / IndexError)")
+            if isinstance(n, ast.BinOp) and isinstance(n.op, (ast.Div, ast.FloorDiv, ast.Mod)) and not isinstance(n.left, ast.Constant) \
+                    and not (isinstance(n.right, ast.Constant) and isinstance(n.right.value, (int, float)) and n.right.value != 0):
+                bad.append(f"{ast.unparse(n)[:50]} at line {n.lineno} (ZeroDivisionError / TypeError)")
+            if isinstance(n, ast.Call) and (is_self_call(n, n.func.attr) if isinstance(n.func, ast.Attribute) and isinstance(n.func.value, ast.Name) and n.func.value.id == 'self' else False) \
+                    and not call_name(n).startswith('self.logger'):
+                # a helper method that was not inlined: followed one level
+                hq2 = program.resolve_method('ioclient', BASE, n.func.attr)
+                if hq2:
+                    for m_ in ast.walk(program.fn('ioclient', hq2)):
+                        if isinstance(m_, ast.Raise) or (isinstance(m_, ast.Subscript) and isinstance(m_.ctx, ast.Load) and not isinstance(m_.value, (ast.Tuple, ast.List, ast.Constant))):
+                            bad.append(f"{hq2}: {ast.unparse(m_)[:50]} at line {m_.lineno}")
+        chk.check(not bad, rule, f"{hq}::hook-cannot-raise", file=IO, line=fn.lineno, func=hq, expected='the retry hook only logs (nothing in it can raise)', found=bad[:3] or 'logging only',
+                  detail='' if not bad else 'an exception raised in the hook leaves the retry loop: after the first failed attempt nothing reconnects')
+
 def one_rx(chk, program, rule='ONE-RX'):
     sites = []
     for mname, m in program.modules.items():
